@@ -191,3 +191,99 @@ fn kinds_replay() {
         Ok(res) => println!("COMPLETED: {} returned {:?}", call, res.map_err(|e| e.chars().take(80).collect::<String>())),
     }
 }
+
+// Native replay for the tracing-table check (C04 / C06, E3d): VERIF_TRACE_KIND names a value kind the
+// solver says the marker never looks into.  A box holding 42 is made reachable ONLY through a value of
+// that kind, a full collection runs, the box heap is churned so that any slot believed free is handed
+// out again, and the box is read back.
+#[test]
+fn trace_replay() {
+    let kind = std::env::var("VERIF_TRACE_KIND").expect("VERIF_TRACE_KIND");
+    // (constructor of the holder around X, accessor giving X back from `h`)
+    let (wrap, unwrap) = match kind.as_str() {
+        "Boxed" => ("(box-strong X)", "(unbox-strong h)"),
+        "VectorV" => ("(immutable-vector 1 X)", "(vector-ref h 1)"),
+        "ListV" => ("(list 1 X)", "(list-ref h 1)"),
+        "Pair" => ("(cons 1 X)", "(cdr h)"),
+        "HashMapV" => ("(hash 'k X)", "(hash-ref h 'k)"),
+        "HashSetV" => ("(hashset X)", "(car (hashset->list h))"),
+        "Closure" => ("(let ((b X)) (lambda () b))", "(h)"),
+        "MutableVector" => ("(vector 1 X)", "(vector-ref h 1)"),
+        "HeapAllocated" => ("(box X)", "(unbox h)"),
+        _ => {
+            println!("NOT-REPLAYABLE: no recipe for a holder of kind {}", kind);
+            return;
+        }
+    };
+    let program = format!(
+        r#"
+        (define h {})
+        (#%gc-collect)
+        (define (churn n) (if (= n 0) 'done (begin (box (+ n 1000)) (churn (- n 1)))))
+        (churn 300000)
+        (#%gc-collect)
+        (churn 300000)
+        (unbox {})
+    "#,
+        wrap.replace("X", "(box 42)"),
+        unwrap
+    );
+    let mut engine = Engine::new();
+    match engine.compile_and_run_raw_program(program) {
+        Ok(vals) => {
+            let got = vals.last().map(|v| v.to_string()).unwrap_or_default();
+            if got == "42" {
+                println!("COMPLETED: the box behind a {} kept its contents", kind);
+            } else {
+                println!("OBSERVED: a box reachable only through a value of kind {} read back {} instead of 42 after a collection and later allocations", kind, got);
+            }
+        }
+        Err(e) => println!("OBSERVED: reading a box reachable only through a value of kind {} failed after a collection: {}", kind, e.to_string().chars().take(160).collect::<String>()),
+    }
+}
+
+// Native replay for the tracing-table check on the global-slot recycler (C06, E3d): a function that
+// refers to an earlier definition of `helper` is reachable ONLY through a value of kind
+// VERIF_TRACE_KIND held by a global; `helper` is redefined, a thousand shadowed definitions trigger the
+// recycling of global slots, new definitions take the released slots; the old function must still
+// call its own `helper`.
+#[test]
+fn recycler_replay() {
+    let kind = std::env::var("VERIF_TRACE_KIND").expect("VERIF_TRACE_KIND");
+    let (wrap, unwrap) = match kind.as_str() {
+        "Closure" => ("(let ((b X)) (lambda () b))", "(h)"),
+        "Boxed" => ("(box-strong X)", "(unbox-strong h)"),
+        "VectorV" => ("(immutable-vector 1 X)", "(vector-ref h 1)"),
+        "ListV" => ("(list 1 X)", "(list-ref h 1)"),
+        "Pair" => ("(cons 1 X)", "(cdr h)"),
+        "HashMapV" => ("(hash 'k X)", "(hash-ref h 'k)"),
+        "MutableVector" => ("(vector 1 X)", "(vector-ref h 1)"),
+        "HeapAllocated" => ("(box X)", "(unbox h)"),
+        _ => {
+            println!("NOT-REPLAYABLE: no recipe for a holder of kind {}", kind);
+            return;
+        }
+    };
+    let mut engine = Engine::new();
+    let mut eval = |src: String| -> Result<String, String> {
+        engine.run(src).map(|vals| vals.last().map(|v| v.to_string()).unwrap_or_default()).map_err(|e| e.to_string())
+    };
+    eval("(define (helper) 'old)".to_string()).unwrap();
+    eval("(define (make-f) (lambda () (list (helper))))".to_string()).unwrap();
+    eval(format!("(define h {})", wrap.replace("X", "(make-f)"))).unwrap();
+    let call = format!("({})", unwrap);
+    let before = eval(call.clone());
+    eval("(define (helper) 'new)".to_string()).unwrap();
+    for i in 0..1000 {
+        eval(format!("(define junk {})", i)).unwrap();
+    }
+    for i in 0..50 {
+        eval(format!("(define (intruder{}) 'intruder)", i)).unwrap();
+    }
+    let after = eval(call.clone());
+    if before == Ok("(old)".to_string()) && after != before {
+        println!("OBSERVED: a function reachable only through a value of kind {} called {:?} instead of its own earlier definition after global slots were recycled", kind, after);
+    } else {
+        println!("COMPLETED: before {:?}, after {:?}", before, after);
+    }
+}
